@@ -23,8 +23,6 @@ import (
 
 	"lcverif/c12"
 	"lcverif/simk"
-
-	"potano.layercake/config"
 )
 
 const kernelStateEnv = "LCV_SIMK_STATE"
@@ -43,23 +41,10 @@ func CLIAvailable() bool {
 	return err == nil
 }
 
-// stdConfigIs: `layercake -basepath <base>` with no configuration file resolves to exactly cfg.
-func stdConfigIs(cfg Cfg) bool {
-	os.Unsetenv("LAYERROOT")
-	os.Unsetenv("LAYERCONF")
-	c, err := config.Load("", cfg.Base)
-	if err != nil {
-		return false
-	}
-	return c.Basepath == cfg.Base && c.Layerdirs == cfg.Layers && c.LayerBuildRoot == cfg.BuildRoot &&
-		c.LayerBinPkgdir == cfg.BinPkg && c.LayerGeneratedir == cfg.Gen && c.LayerOvfsWorkdir == cfg.Work &&
-		c.LayerOvfsUpperdir == cfg.Upper && c.Exportdirs == cfg.Exports && c.ExportBinPkgdir == cfg.ExpBinPkg &&
-		c.ExportGeneratedir == cfg.ExpGen
-}
-
 // cliArgv renders the step as a command line (nil: this kind of step has no process-level form).
 // The global switches are put at varying positions: they "may be specified anywhere".
-func cliArgv(cfg Cfg, st StepIn, salt int) []string {
+func cliArgv(in Input, st StepIn, salt int) []string {
+	cfg := in.Cfg
 	var cmd []string
 	c := st.Cmd
 	switch c.Kind {
@@ -124,6 +109,14 @@ func cliArgv(cfg Cfg, st StepIn, salt int) []string {
 		sw = append(sw, "-v")
 	}
 	argv := []string{"-basepath", cfg.Base}
+	if in.Conf != "" {
+		argv = []string{"-config", in.Conf}
+		if in.ConfBase && salt%2 == 0 {
+			argv = []string{"-config", in.Conf, "-basepath", cfg.Base}
+		} else if in.ConfBase {
+			argv = []string{"-basepath", cfg.Base, "-config", in.Conf}
+		}
+	}
 	switch salt % 3 {
 	case 0: // before the command word
 		argv = append(append(argv, sw...), cmd...)
@@ -135,8 +128,8 @@ func cliArgv(cfg Cfg, st StepIn, salt int) []string {
 	return argv
 }
 
-func cliEligible(cfg Cfg, st StepIn) bool {
-	return len(st.Users) == 0 && cliArgv(cfg, st, 0) != nil
+func cliEligible(in Input, st StepIn) bool {
+	return len(st.Users) == 0 && cliArgv(in, st, 0) != nil
 }
 
 func parseOpLog(data string) []Op {
@@ -180,7 +173,8 @@ func loadKernel(file string) (*simk.Kernel, error) {
 }
 
 // runStepCLI executes one invocation with the real binary.
-func runStepCLI(cfg Cfg, k *simk.Kernel, st StepIn, salt int) (obs StepObs) {
+func runStepCLI(in Input, k *simk.Kernel, st StepIn, salt int) (obs StepObs) {
+	cfg := in.Cfg
 	self, err := os.Executable()
 	if err != nil {
 		return StepObs{Res: "harness-error", Err: err.Error()}
@@ -199,15 +193,18 @@ func runStepCLI(cfg Cfg, k *simk.Kernel, st StepIn, salt int) (obs StepObs) {
 	if err := os.WriteFile(helper, []byte(script), 0700); err != nil {
 		return StepObs{Res: "harness-error", Err: err.Error()}
 	}
-	argv := cliArgv(cfg, st, salt)
+	argv := cliArgv(in, st, salt)
 	cmd := exec.Command(os.Getenv("LCV_RUN")+"/layercake", argv...)
 	env := []string{}
 	for _, e := range os.Environ() {
-		if !strings.HasPrefix(e, "LAYERROOT=") && !strings.HasPrefix(e, "LAYERCONF=") && !strings.HasPrefix(e, "LAYERCAKE_VERIF_") {
+		if !strings.HasPrefix(e, "LAYERROOT=") && !strings.HasPrefix(e, "LAYERCONF=") && !strings.HasPrefix(e, "LAYERCAKE_VERIF_") &&
+			!strings.HasPrefix(e, "HOME=") {
 			env = append(env, e)
 		}
 	}
-	env = append(env, "LAYERCAKE_VERIF_KERNEL="+helper, kernelStateEnv+"="+state, "LAYERCAKE_VERIF_LOG="+logfile)
+	// no configuration file outside the world: $HOME/.layercake absent (the other candidates,
+	// <prefix>/etc/layercake.conf and /etc/layercake.conf, do not exist on this machine)
+	env = append(env, "HOME="+scratch, "LAYERCAKE_VERIF_KERNEL="+helper, kernelStateEnv+"="+state, "LAYERCAKE_VERIF_LOG="+logfile)
 	if st.Env.Fault != "" {
 		env = append(env, fmt.Sprintf("LAYERCAKE_VERIF_FAULT=%s:%d", st.Env.Fault, st.Env.K))
 	}
